@@ -256,6 +256,13 @@ func TestC05Proc(t *testing.T) {
 				Ops:  []string{"new", "start", "sleep:1500", "proc?", "cleanup", "proc?"}})
 		}
 	}
+	// the application built the command with exec.CommandContext and a polite Cancel hook (SIGTERM); the plugin ignores that
+	// signal (as go-plugin's own Serve ignores SIGINT): a failed start still terminates it, a later Kill still returns
+	for name, tail := range map[string]string{"bad app version": "echo '1|9|tcp|127.0.0.1:1'", "silence until timeout": "true", "short line": "echo '1|1'"} {
+		cells = append(cells, Cell{Name: fmt.Sprintf("launch=cmd cause=%s, command built with CommandContext and Cancel=SIGTERM, plugin ignores SIGTERM", name), Plugin: PluginConf{LegacyProto: "netrpc"},
+			Host: HostConf{Allowed: []string{"netrpc", "grpc"}, TLS: "none", Launch: "cmd", Legacy: 1, Script: "trap '' TERM; " + tail + "; exec sleep 30", StartTimeoutMs: 1500, CmdCancel: "sigterm"},
+			Ops:  []string{"new", "start", "sleep:1500", "proc?", "kill", "proc?"}})
+	}
 	// the application had preset Cmd.Stdin to a reader that stays open and silent
 	for _, name := range []string{"bad app version", "silence until timeout", "exit before output", "short line"} {
 		cells = append(cells, Cell{Name: fmt.Sprintf("launch=cmd cause=%s, Cmd.Stdin preset to an idle pipe", name), Plugin: PluginConf{LegacyProto: "netrpc"},
